@@ -224,9 +224,9 @@ LEVEL_TEXT["C16"] = "Partial claim: the taint-style discipline around the path g
 LEVEL_TEXT["C18"] = "Partial claim: tables are a legitimate object of static checking (constant extraction and comparison against the standard's tables); the evaluator's shape is decided; numerical clauses are not."
 LEVEL_TEXT["C11"] = "Partial claim: decoding is index arithmetic over run-time widths and offsets; decided are the layout, dispatch, role-flow and loop-shape agreements that arithmetic rests on."
 TECHNIQUE = {
-    "C11": "static analysis: size/format agreement, endianness dataflow, registry sibling-interface check, tuple-role flow, def-use of decoded columns",
+    "C11": "static analysis: size/format agreement, endianness dataflow, registry sibling-interface check, role inference (rows/width/bytes) by unification, column selection in symbolic normal form, mask constants against every declared integer type",
     "C18": "static analysis: constant-table extraction and comparison with vendored NIST tables, partition/totality check, unit-exponent flow",
-    "C16": "static analysis: taint-style producer/consumer funnel, expression-shape check of the encoder, alphabet agreement, key-space typing of map accesses",
+    "C16": "static analysis: string-kind inference (NAME / PATH / ObjectPath) by unification seeded by the encoder and the scanner, encoder compared in symbolic normal form, alphabet agreement, truthiness lint on path components",
     "C07": "static analysis: decision-table analysis over threshold-induced cells, interval/numeric-kind analysis, table and layout agreement",
     "C12": "static analysis: interval/numeric-kind analysis of the encoder, sibling expression normalisation, constant folding",
     "C01": "static analysis: dispatch exhaustiveness over the class hierarchy, size/format agreement, endianness dataflow, container discipline",
@@ -234,14 +234,14 @@ TECHNIQUE = {
     "C04": "static analysis: loop-carried counter path rule, dependence analysis of window bounds, None-vs-falsy lint on a frozen parameter table",
     "C09": "static analysis: dominance of tag checks, coordinate-space typing of seek targets, scenario evaluation of constructor stores, None-contradiction rule",
     "C10": "static analysis: call-site constant/role checks, CFG must-pass in the copy loops, writer dispatch totality",
-    "C19": "static analysis: call-graph unreachability, control dependence of reads, data dependence of window bounds",
+    "C19": "static analysis: call-graph unreachability, control dependence of reads, data dependence of window bounds across helpers and generators, cache hit test in symbolic normal form, stream-as-supplied rule",
     "C08": "static analysis: expression/size agreement per CFG path, influence set of is_index_file, dominance of state updates by the writes",
     "C14": "static analysis: abstract interpretation over a dtype lattice (NumPy as promotion oracle), table extraction and comparison, dataflow of dtype sources",
-    "C02": "static analysis: alias/freshness dataflow, typestate abstract interpretation of the object list and has_data, control-dependence of raises",
+    "C02": "static analysis: alias/freshness dataflow, typestate abstract interpretation of the object list and has_data, control-dependence of raises, reachability of inheritance sites under the new-object-list flag, single-writer memo fields",
     "C13": "static analysis: interprocedural alias and in-place effect analysis; dispatch and role-flow rules",
     "C05": "static analysis: typestate (cursor P/U) abstract interpretation with generator continuations, single-writer and cache-pairing rules",
     "C15": "static analysis: interprocedural endianness dataflow over the call graph, default-argument trap, layout sibling comparison",
-    "C20": "static analysis: CFG with exceptional edges, must-pass-through / dominance queries, ownership (who-may-open/close) rules",
+    "C20": "static analysis: CFG with exceptional edges, must-pass-through / dominance queries, path-sensitive resource interpreter over input scenarios (package context managers interpreted), ownership (who-may-open/close) rules",
 }
 NOT_APPLICABLE = {
     "C06": "quantifies over every byte offset of every file; prefix-ness depends on run-time remainders and short reads "
